@@ -111,7 +111,7 @@ def run(ctx):
     res, cand = sl.mc(ctx, "Subscription_cov1.cfg", timeout=1200)
     if not cand:
         raise vlib.Infra("coverage target 'failed renewal onto another version with a second holder' not reachable in the model")
-    cands.append(cand + [ADV("stale", 219), ADV("month", 1), ADV("month", 1)])
+    cands.append(cand + [ADV("stale", 219), ADV("month", 1), ADV("epoch", 19), ADV("month", 1)])   # (an epoch is shorter than a month)
     ctx.notes.append("coverage target reached by TLC after %d steps (%d states); replayed" % (len(cand), res["distinct"]))
     # G: simulation
     n = ctx.pick(60, 240)
